@@ -64,12 +64,19 @@ Fixpoint list_eqb2 {A B} (f : A -> B -> bool) (a : list A) (b : list B) : bool :
 (* an object: environment, declared properties, the annotations emitted for
    them, and what the reflector read back (None: a reflected property the
    declaration language cannot express) *)
-Definition value3_eq_dec : forall a b : str * Z * str, {a = b} + {a <> b}.
-Proof. decide equality; [apply str_eq_dec | decide equality; [apply Z.eq_dec | apply str_eq_dec]]. Defined.
+Definition oinfo_eq_dec : forall a b : oinfo, {a = b} + {a <> b}.
+Proof. apply list_eq_dec. decide equality; apply str_eq_dec. Defined.
+Definition infofield_eq_dec : forall a b : infofield, {a = b} + {a <> b}.
+Proof. decide equality; [apply str_eq_dec | decide equality; apply str_eq_dec]. Defined.
+Definition value3_eq_dec : forall a b : str * Z * str * oinfo, {a = b} + {a <> b}.
+Proof.
+  decide equality; [apply oinfo_eq_dec|].
+  decide equality; [apply str_eq_dec | decide equality; [apply Z.eq_dec | apply str_eq_dec]].
+Defined.
 Definition enum_out_eq_dec : forall a b : enum_out, {a = b} + {a <> b}.
-Proof. decide equality; [apply list_eq_dec; apply value3_eq_dec | apply str_eq_dec]. Defined.
+Proof. decide equality; [apply list_eq_dec; apply infofield_eq_dec | apply list_eq_dec; apply value3_eq_dec | apply str_eq_dec]. Defined.
 Definition renum_eq_dec : forall a b : renum, {a = b} + {a <> b}.
-Proof. decide equality; try apply str_eq_dec; apply list_eq_dec; apply value3_eq_dec. Defined.
+Proof. decide equality; try apply str_eq_dec; apply list_eq_dec; first [apply value3_eq_dec | apply infofield_eq_dec]. Defined.
 
 Inductive c04case :=
 | C04Case (env : enum_env) (ds : list prop) (obs : list fout) (refl : outcome (list (option rprop)))
